@@ -33,7 +33,7 @@ ROUTING = b"\x08\x01\x12\x04edge"
 
 
 # ---------------------------------------------------------------- scenario <-> model
-def model_args(scn):
+def model_args(scn, obs=None):
     stored = {"XX": 0, "IK": 1, "FB": 2}[scn["variant"]]
     cfg = [0, 0, stored, 0, 0, 1 if scn.get("edge") else 0]
     scr, att, logged_in = [], 0, False
@@ -47,6 +47,8 @@ def model_args(scn):
         elif it[0] == "hello":
             ok = 0 if scn.get("corrupt") is not None else 1
             static = 0 if cur_stored == 1 else 1      # the server has key 1: IK iff the client stored it
+            if obs is not None and att - 1 < len(obs["resp"]) and obs["resp"][att - 1]["variant"]:
+                static = 0 if obs["resp"][att - 1]["variant"] == "IK" else 1   # what this server really answered
             scr.append([2, 100 + att, att, ok, static])
             if ok:
                 cur_stored = 1
@@ -62,14 +64,16 @@ def hexs(x):
 def scn_json(scn):
     d = dict(scn)
     d["edge"] = hexs(d.get("edge")) if d.get("edge") else None
-    d["script"] = [list(i) for i in scn["script"]]
+    if "script" in scn:
+        d["script"] = [list(i) for i in scn["script"]]
     return d
 
 
 def scn_from_json(d):
     s = dict(d)
     s["edge"] = bytes.fromhex(s["edge"]) if s.get("edge") else None
-    s["script"] = [tuple(i) for i in s["script"]]
+    if "script" in s:
+        s["script"] = [tuple(i) for i in s["script"]]
     return s
 
 
@@ -111,6 +115,7 @@ class Checker(object):
         self.kinds = {}
         self.mismatch = 0
         self.finding_seen = 0
+        self.nocase = 0
 
     @staticmethod
     def history_is_finding(obs):
@@ -140,6 +145,10 @@ class Checker(object):
             c.update(extra)
             if verbose:
                 print("FAILED %s: %s" % (name, json.dumps(extra, default=str)[:600]))
+            if not found_input and name.startswith("correspondence:"):
+                self.nocase += 1
+                if self.nocase > 3:
+                    return          # enough tie-broken records; keep searching for a failing input
             ctx.violation(name, c, found_input=found_input,
                           key=KEY_RECONNECT if (finding_hist and name.startswith("oracle:")) else None)
             if finding_hist and name.startswith("oracle:"):
@@ -153,8 +162,21 @@ class Checker(object):
         # ---- correspondence: replay the real trace through the model
         summ = None
         if self.model is not None:
-            cfg, scr = model_args(scn)
-            res = self.model.call("run_replay", [cfg, scr, [list(x) for x in obs["log"]]])
+            cfg, scr = model_args(scn, obs)
+            log = [list(x) for x in obs["log"]]
+            truncated = False
+            if finding_hist and any(x[1] == 18 for x in log):
+                # inside the open finding's histories the code is already broken once a thread has died;
+                # the model is only required to follow the code up to the operation that kills the first thread
+                k = next(i for i, x in enumerate(log) if x[1] == 18)
+                dead = log[k][0]
+                log = log[:k]
+                while log and log[-1][0] == dead and log[-1][1] == 17:
+                    log.pop()          # a release done by exception clean-up (with-statement / finally)
+                truncated = True
+            res = self.model.call("run_replay", [cfg, scr, log])
+            if truncated and not isinstance(res, tuple) and res[0] == 3:
+                res = [0, res[2]]
             if isinstance(res, tuple) or res[0] != 0:
                 self.mismatch += 1
                 viol("correspondence:C04.trace",
@@ -163,6 +185,9 @@ class Checker(object):
                      found_input=bool(self.oracle_fail_names(scn, obs)))
             else:
                 summ = res[1]
+                if truncated:
+                    summ = None
+            if summ is not None:
                 m_status = self.model_status(summ)
                 r_status = self.real_status(obs)
                 if m_status != r_status or summ[0] != obs["state"] or list(summ[1]) != obs["inq_left"] or \
@@ -388,7 +413,7 @@ def run(ctx):
             ctx.add_sample({"variant": scn["variant"], "edge": bool(scn["edge"]), "corrupt": scn["corrupt"],
                             "segments": len(scn["script"]) - 1, "chunk": scn["chunk"], "schedule": obs["trace"][:40],
                             "ops": len(obs["log"]), "delivered": [g[1] for g in obs["top"] if g[0] == "up"]})
-        if len(ctx.violations) >= 5:
+        if len(ctx.violations) >= 5 and any(v["found_input"] for v in ctx.violations):
             break
 
     # 2. exhaustive enumeration of every schedule for small scenarios
@@ -397,14 +422,15 @@ def run(ctx):
              [(v, n, c) for v in ("XX", "IK", "FB") for n in (0, 1, 2, 3) for c in (None,)] + \
              [(v, 0, 3) for v in ("XX", "IK", "FB")]
     for v, n, c in shapes:
-        if ctx.violations:
+        if any(x["found_input"] for x in ctx.violations):
             break
         scn = {"variant": v, "edge": None, "passive": False, "corrupt": c,
                "script": [("auth",), ("hello",)] + [("data", i) for i in range(n)], "chunk": "whole",
                "hold": [False] * (n + 2)}
         cnt, complete = explore(chk, scn, 1500 if quick else 40000, "exhaustive")
         exh["%s/%d%s" % (v, n, "/fail" if c is not None else "")] = {"schedules": cnt, "complete": complete}
-    ctx.coverage["exhaustive"] = exh
+    ctx.coverage["exhaustive_scenarios"] = exh
+    ctx.coverage["exhaustive"] = False
 
     # 3. reconnect after a COMPLETED attempt (positive part of the reconnect clause)
     for i in range(40 if quick else 1500):
@@ -420,7 +446,7 @@ def run(ctx):
     if not ctx.violations:
         cnt, complete = explore(chk, rc, 400 if quick else 20000, "reconnect-cut")
         ctx.coverage["reconnect_cut_schedules"] = {"schedules": cnt, "complete": complete,
-                                                   "schedules_violating_property": chk.finding_seen}
+                                                   "oracle_failures_matched_to_finding": chk.finding_seen}
         for v in ("IK", "FB"):
             for i in range(20 if quick else 300):
                 s2 = dict(rc)
@@ -501,7 +527,7 @@ def replay(ctx, data):
             print("KNOWN-FINDING: property=C04 (replayed) %s" % ", ".join(bad))
         return 0
     if mode == "soak":
-        scn = scn_from_json(case["scenario"]) if "script" in case["scenario"] else dict(case["scenario"], edge=bytes.fromhex(case["scenario"]["edge"]) if case["scenario"].get("edge") else None)
+        scn = scn_from_json(case["scenario"])
         res = R.run_soak(ctx.scratch, "replay", scn, random.Random(case["seed"]))
         print("observed: blocks", res["blocks"], "top", len(res["top"]), "sent", len(res["sent"]),
               "server_got", len(res["server_got"]), "client_sent", len(res["client_sent"]), "profile key", res["disk_rs"])
